@@ -1423,6 +1423,7 @@ ASMJIT_FAVOR_SPEED Error X86RAPass::rewrite() noexcept {
                 break;
               }
 
+              case Inst::kIdKmovw:
               case Inst::kIdVmovw: {
                 if (operands[0].is_gp() && operands[1].is_mem()) {
                   // Transform from [V]MOVD to MOV.
